@@ -280,7 +280,7 @@ def field_table(value: common.FieldTable) -> bytes:
     :raises TypeError: when the value is not the correct type
 
     """
-    if not value:  # If there is no value, return a standard 4 null bytes
+    if value is None:  # If there is no value, return a standard 4 null bytes
         return common.Struct.integer.pack(0)
     elif not isinstance(value, dict):
         raise TypeError('dict required, received {}'.format(type(value)))
